@@ -3,6 +3,7 @@ SPECIFICATION Spec
 CONSTANTS
     Paths = {"p", "q", "r", "o"}
     StorePaths = {"o"}
+    LinkPaths = {"r"}
     Contents = {"c1", "c2", "c3"}
     Size <- SizeDef
     Algs = {"md5"}
